@@ -395,8 +395,7 @@ def _lin(p, f, e):
     return linear(e)
 
 
-@rule('RNG-FRAME', 'N', 'offsets measured in a slice are shifted by the slice base exactly once before they are reported')
-def rng_frame(p, res):
+def _old_rng_frame(p, res):
     from ..linear import show
     # 1. in-place shifting helpers: each of the four position fields += offset exactly once, value fields only when a value exists
     for fq, off in (('html_matcher.get_attributes', 'start'), ('action_utils.html.shift_attribute_ranges', 'offset')):
